@@ -327,7 +327,8 @@ def decide(prop, tier, seed, replay=None):
             # break after 20 s of real time): nothing is processed any more - the scenario is the concrete failing input
             violations.append((sid, {'line': 0, 'prop': prop, 'clause': 'eventLoopFrozen', 'sigs': [],
                                      'detail': 'a synchronous spin inside bubus froze the event loop: ' + err[:300]}))
-        elif err and key not in ('budget', 'watchdog-in-bubus', 'deadlock', 'watchdog') and 'harness' in relevant:
+        elif err and key not in ('budget', 'watchdog-in-bubus', 'deadlock', 'watchdog', 'oversize') and 'harness' in relevant:
+            # ('oversize': a generated scenario produced more records than the harness follows - skipped, as it says nothing about the code)
             # the scenario could not be run or recorded on this code at all (an attribute the tracing wrappers rely on is gone, a
             # wrapper raised): nothing of the correspondence was checked on it - that is a broken tie, not a pass
             diverged.append((sid, {'line': 0, 'why': 'harness: the scenario could not be run and recorded on this code', 'raw': err[:400]}))
